@@ -32,6 +32,25 @@ def load_known_findings():
         return json.load(f).get('findings', [])
 
 
+def _scan_assumes():
+    """mechanical scan (every report): each `assume(` / solver `add(` in the contract modules this run loaded - these are
+    preconditions, spec axioms and assumed callee contracts, never proof steps"""
+    import sys
+    out = []
+    for name, mod in sorted(sys.modules.items()):
+        if not name.startswith('contracts.k_') or not getattr(mod, '__file__', None):
+            continue
+        try:
+            with open(mod.__file__) as f:
+                for i, line in enumerate(f, 1):
+                    t = line.strip()
+                    if ('.assume(' in t or 'ctx.add(' in t) and not t.startswith('#'):
+                        out.append({'file': os.path.relpath(mod.__file__, VERIF), 'line': i, 'text': t[:160]})
+        except OSError:
+            pass
+    return out
+
+
 class Report:
     def __init__(self, prop, tier, seed, level, checker_cmd):
         self.prop = prop
@@ -271,6 +290,7 @@ class Report:
             else False,
         }
         cov.update(self.extra)
+        cov['assume_sites'] = _scan_assumes()
         doc = {'property_id': self.prop, 'tier': self.tier, 'seed': self.seed, 'level': self.level, 'coverage': cov,
                'assumptions': self.assumptions, 'wall_s': round(time.time() - self.t0, 2), 'violations': nviol}
         d = os.path.join(OUT, 'evidence')
